@@ -99,7 +99,7 @@ func faultsFor(fc *FieldCase) []dataFault {
 	case KF32:
 		add("unparsable string for a number / boolean", p, "zz", p)
 		add("out of range for the field's kind", p, float64(1e39), p)
-	case KDur:
+	case KDur, KPDur:
 		add("unparsable duration", p, "zz", p)
 	case KStr, KPStr, KVStr, KUStr:
 		add("object where a primitive is expected", p, obj, p)
